@@ -305,6 +305,42 @@ def absorb_rejections(ctx, rej, family, trace_file, only=None):
                                                    "case": {"trace": dst, "line_in_full_trace": items[0][0]}}))
 
 
+def recv_validate(ctx, trace_file, only, name="TraceRecv"):
+    """(C) the inbound side: a per-connection hook trace (TraceReset between connections) is partitioned by
+    'permessage-deflate negotiated' (ConnNew.b) and each part replayed through WSRecv's decoder by TraceRecv.tla."""
+    parts = {True: ctx.path("recv_on_%d.ndjson" % len(ctx.mc_runs)), False: ctx.path("recv_off_%d.ndjson" % len(ctx.mc_runs))}
+    fh = {k: open(v, "w") for k, v in parts.items()}
+    cur, fl, nconn = [], False, 0
+
+    def flush():
+        nonlocal cur, fl, nconn
+        if cur:
+            fh[fl].write("".join(cur))
+            nconn += 1
+        cur, fl = [], False
+    for l in open(trace_file):
+        if '"TraceReset"' in l:
+            flush()
+        elif '"ConnNew"' in l:
+            try:
+                fl = json.loads(l).get("b", 0) != 0
+            except Exception:
+                pass
+        cur.append(l if l.endswith("\n") else l + "\n")
+    flush()
+    for f in fh.values():
+        f.close()
+    total = 0
+    for fl, path in parts.items():
+        if os.path.getsize(path) == 0:
+            continue
+        rej, n = trace_validate(ctx, "TraceRecv", "TraceRecv.%s.cfg" % ("on" if fl else "off"), path, name="%s(%s)" % (name, "deflate" if fl else "plain"))
+        total += n
+        absorb_rejections(ctx, rej, "TraceRecv", path, only=only)
+    ctx.extra["recv_trace_connections"] = ctx.extra.get("recv_trace_connections", 0) + nconn
+    return total
+
+
 def split_by_conn(src, dst):
     """Regroup a global-order hook trace per connection (order within a connection kept), TraceReset between."""
     by, order = {}, []
@@ -348,6 +384,7 @@ def repo_tests_traced(ctx, only_conn, only_pool=None):
     ctx.impl_traces += conns
     rej, _ = trace_validate(ctx, "TraceConn", "TraceConn.loose.cfg", per, name="TraceConn(repo tests)")
     absorb_rejections(ctx, rej, "TraceConn", per, only=only_conn)
+    recv_validate(ctx, per, only_conn, name="TraceRecv(repo tests)")
     if only_pool is not None:
         glob_ = ctx.path("repotests-global.ndjson")
         with open(glob_, "w") as f:
